@@ -96,6 +96,9 @@ def run_full(W, cfg):
     W.ob_true('shape', tuple(int(x) for x in inten.shape) == (Nr, Nc))
     total = W.sum(inten[i, j] for i in range(Nr) for j in range(Nc))
     W.ob('total intensity = input power', total, power)
+    wt = W.real('weight', pos=True)
+    acc = o.insert(W.zeros((Nr, Nc)), weight=wt)
+    W.ob('accumulated with a weight: total = weight x input power', W.sum(acc[i, j] for i in range(Nr) for j in range(Nc)), wt * power)
     again = o.intensity                  # forming the image a second time from the same wavefront
     W.ob('total intensity, read a second time', W.sum(again[i, j] for i in range(Nr) for j in range(Nc)), power)
 
@@ -148,6 +151,13 @@ def run_windows(W, cfg):
         part = lt.propagate_dft(w, pixelscale=du, shape=(Nr, Nc), oversample=1, mask=om).intensity
         want = [[full[i, j] if (r0 <= i <= r1 and c0 <= j <= c1) else 0 for j in range(Nc)] for i in range(Nr)]
         W.ob(f'mask window rows {r0}..{r1} cols {c0}..{c1} = full-period samples inside, 0 outside', part, W.array(want))
+    if Nr >= 3 and Nc >= 3:
+        # a mask with a dead row and a dead column inside its bounding box: the window is still the bounding box
+        om = rnp.ones((Nr, Nc), dtype=int)
+        om[1, :] = 0
+        om[:, 1] = 0
+        part = lt.propagate_dft(w, pixelscale=du, shape=(Nr, Nc), oversample=1, mask=om).intensity
+        W.ob('mask with a dead row and column: the window is its bounding box', part, full)
     # non-negativity: every sample is |field|^2 (C07 discharges intensity = |field|^2); the lemma x^2 + y^2 >= 0 is discharged here
     x, y = W.real('lemma_x'), W.real('lemma_y')
     W.ob_true('lemma: re^2 + im^2 >= 0', x * x + y * y >= 0)
